@@ -296,10 +296,11 @@ def c15(ctx):
 # --------------------------------------------------------------------------
 
 def filetype_table(fx):
+    import views
     obs = []
-    f = fx.fn(WALKER)
+    f = views.walker_view(fx)
     if f is None:
-        return [anchor_ob("R-TABLE", WALKER)]
+        return [anchor_ob("R-TABLE", "a thread role that iterates a WalkDir")]
     sw = type_variant_switches(f, FILETYPE)
     if not sw:
         return [anchor_ob("R-TABLE", "tree_walker does not dispatch on libfs::FileType")]
@@ -322,7 +323,7 @@ def filetype_table(fx):
             continue
         region = edge_region(f, sb, m[var]) | {m[var]}
         ops = sorted(set(v for _, v, _ in aggs_in(f, region, OPERATION)))
-        r = cg.reach(f.path, blocks=region)
+        r = q.view_reach(fx, f, region)
         calls = set(x for x in effects if x in r)
         key = mkkey("R-TABLE", WALKER, "FileType::" + var, 0, "action")
         if w["fail"]:
@@ -369,8 +370,8 @@ def mknod_provenance(fx):
 
 
 def op_regions(fx, w):
-    """variant -> region blocks of the worker's dispatch on Operation."""
-    f = fx.fn(w)
+    """variant -> region blocks of the worker's dispatch on Operation. `w` is a function path or a view."""
+    f = fx.fn(w) if isinstance(w, str) else w
     if f is None:
         return None, {}
     sw = type_variant_switches(f, OPERATION)
@@ -396,9 +397,19 @@ def sibling_agreement(fx, variants=("Link", "Special", "Copy")):
     cg = q.callgraph(fx)
     summ = {}
     errs = {}
-    all_err = {(o.fn, o.loc): o for o in r_err.run(fx, crates=("libxcp",))}
-    for w in (PF_WORKER, PB_DISPATCH):
-        f, regs = op_regions(fx, w)
+    import views
+    import engine
+    allow = engine.load_allow()
+    all_err = {}
+    for o in r_err.run(fx, crates=("libxcp",)):
+        a = allow.get(o.key)
+        if not o.ok and not (a is not None and (not a.get("shape") or a["shape"] == o.shape)):
+            all_err[o.loc] = o
+    WORKERS = views.workers(fx)
+    if len(WORKERS) < 2:
+        obs.append(anchor_ob("R-SIB", "two worker roles dispatching on Operation (found %d)" % len(WORKERS)))
+    for w, fv in WORKERS:
+        f, regs = op_regions(fx, fv)
         if f is None or not regs:
             obs.append(anchor_ob("R-SIB", "%s dispatches on Operation" % w))
             continue
@@ -407,7 +418,7 @@ def sibling_agreement(fx, variants=("Link", "Special", "Copy")):
             if region is None:
                 obs.append(anchor_ob("R-SIB", "%s: Operation::%s arm" % (w, v)))
                 continue
-            r = cg.reach(f.path, blocks=region)
+            r = q.view_reach(fx, f, region)
             eff = set(EFFECT_CLASS.get(x, x) for x in SIB_EFFECTS if x in r)
             if v == "Copy":
                 # tabled difference: parfile copies inline (copy_file), parblock queues block jobs
@@ -425,22 +436,25 @@ def sibling_agreement(fx, variants=("Link", "Special", "Copy")):
             for bi in region:
                 t = f.blocks[bi]["term"]
                 if t["k"] == "call" and not q.span_excluded(t["span"]):
-                    o = all_err.get((f.path, q.loc_of(t)))
+                    o = all_err.get(q.loc_of(t))
                     if o is not None and not o.ok and o.status != "ok":
                         bad.append(o)
             errs[(w, v)] = bad
+    labels = [w for w, fv in WORKERS]
     for v in variants:
-        a, b = summ.get((PF_WORKER, v)), summ.get((PB_DISPATCH, v))
+        if len(labels) < 2:
+            continue
+        a, b = summ.get((labels[0], v)), summ.get((labels[1], v))
         if a is None or b is None:
             continue
         ok = a == b
-        obs.append(Ob("R-SIB", mkkey("R-SIB", "parfile~parblock", "Operation::" + v, 0, "effects"), ok, "", PF_WORKER,
+        obs.append(Ob("R-SIB", mkkey("R-SIB", "parfile~parblock", "Operation::" + v, 0, "effects"), ok, "", labels[0],
                       "Operation::%s: parfile %s guards %s | parblock %s guards %s" % (
                           v, sorted(x.split("::")[-1] for x in a[0]), sorted(a[1]),
                           sorted(x.split("::")[-1] for x in b[0]), sorted(b[1])),
                       None if ok else dict(only_parfile=sorted(a[0] - b[0]), only_parblock=sorted(b[0] - a[0]),
                                            guards=(sorted(a[1]), sorted(b[1])))))
-        for w in (PF_WORKER, PB_DISPATCH):
+        for w in labels:
             bad = errs.get((w, v), [])
             obs.append(Ob("R-SIB", mkkey("R-SIB", w, "Operation::" + v, 0, "errors-handled"), not bad, "", w,
                           "Operation::%s arm of %s: %s" % (v, w.split("::")[-1],
@@ -454,9 +468,11 @@ def arms_must_create(fx, variants=("Copy", "Link", "Special")):
     """In both workers, every path through the arm of an Operation variant performs the creating call of that
     kind (truncating open+sizing / symlink / mknod) or fails: an arm cannot silently skip its entry."""
     obs = []
-    creators = {"Copy": {NEW}, "Link": {SYMLINK}, "Special": {MKNODAT}}
-    for w in (PF_WORKER, PB_DISPATCH):
-        f, regs = op_regions(fx, w)
+    import views
+    # the creating call of each kind (Copy: the truncating open; Special: mknod inside libfs::copy_node)
+    creators = {"Copy": {FILE_CREATE}, "Link": {SYMLINK}, "Special": {MKNODAT}}
+    for w, fv in views.workers(fx):
+        f, regs = op_regions(fx, fv)
         if f is None or not regs:
             obs.append(anchor_ob("R-ORDER", "%s dispatches on Operation" % w))
             continue
@@ -481,18 +497,44 @@ def arms_must_create(fx, variants=("Copy", "Link", "Special")):
     return obs
 
 
+def region_forbids_view(fx, f, blocks, forbidden, rule, what, label):
+    """No call in `blocks` of view f is, or reaches, a forbidden callee."""
+    cg = q.callgraph(fx)
+    hits = {}
+    for bi in blocks:
+        t = f.blocks[bi]["term"]
+        if t["k"] != "call" or q.span_excluded(t["span"]):
+            continue
+        o, p_ = q.names(t)
+        for nm in (o, p_):
+            if nm in forbidden:
+                hits[nm] = [q.loc_of(t)]
+        cands = [p_] if p_ in fx.fns else []
+        cands += [x for x in (t.get("fn") or {}).get("fnvals", []) if x in fx.fns]
+        for c in cands:
+            r = cg.reach(c)
+            for nm in forbidden:
+                if nm in r:
+                    hits[nm] = r[nm]
+    ok = not hits
+    return [Ob(rule, mkkey(rule, label, "region_forbids", 0, what), ok, f.loc(), label,
+               "%s: %s" % (what, "none of the forbidden callees is reached" if ok else sorted(hits)),
+               None if ok else dict(paths=hits))]
+
+
 def specials_never_opened(fx):
     obs = []
     cg = q.callgraph(fx)
     forb = {FILE_OPEN, FILE_CREATE, READ, "std::fs::read", "std::fs::read_to_string", "std::fs::OpenOptions::open", NEW,
             "std::fs::copy"}
-    for w in (PF_WORKER, PB_DISPATCH):
-        f, regs = op_regions(fx, w)
+    import views
+    for w, fv in views.workers(fx):
+        f, regs = op_regions(fx, fv)
         if f is None or "Special" not in regs:
             obs.append(anchor_ob("R-WHO", "%s Special arm" % w))
             continue
-        obs += ro.region_forbids(fx, f, regs["Special"], forb, "R-WHO", "special files are recreated, never opened",
-                                 tag="Special-arm")
+        o_ = region_forbids_view(fx, f, regs["Special"], forb, "R-WHO", "special files are recreated, never opened", w)
+        obs += o_
     g = fx.fn("libfs::linux::copy_node")
     if g is None:
         obs.append(anchor_ob("R-WHO", "libfs::linux::copy_node"))
